@@ -29,6 +29,12 @@ def random_cases(rng, tier):
     """random object graphs an order of magnitude larger than the enumerated worlds"""
     yield from ac.random_worlds(rng, 150 if tier == "quick" else 1500)
 
+def extra_observations(work, tier, seed):
+    """bundled documents of the repository: load -> save -> analyse / reload (code -> spec direction)"""
+    WORK.mkdir(parents=True, exist_ok=True)
+    for p in ac.bundled(tier):
+        yield ac.run_recorded(p, WORK)
+
 def nontrivial(o):
     return len(o["in"].get("sw", [])) > 0
 
